@@ -120,6 +120,12 @@ def main():
                 flags["solve_fail_debug"] = 1
             call["flags"] = flags
             o = call["roots"][0]
+            stream = o
+            if call.get("rs_seed") is not None:
+                # a module-level vsc.randomize(obj, randstate=RandState(seed)): the stream of this call originates at that seed
+                flags["randstate"] = vsc.RandState.mkFromSeed(call["rs_seed"])
+                stream = call["stream"]
+                events.append({"op": "seed", "o": stream, "s": call["rs_seed"] * 1000})
             # the call's input besides the random stream: the values of the non-random fields (previous values of
             # random fields are not an input - the result must not depend on them)
             pre = {k_: v_ for k_, v_ in proj(o).items() if k_ in s.W["scalars"] and not s.W["scalars"][k_]["declrand"]}
@@ -131,7 +137,8 @@ def main():
             finally:
                 for n_ in orig:
                     setattr(random, n_, orig[n_])
-            events.append({"op": "call", "o": o, "desc": json.dumps(op["call"], sort_keys=True), "pre": pre, "post": proj(o),
+            events.append({"op": "call", "o": stream, "desc": json.dumps({k_: v_ for k_, v_ in op["call"].items() if k_ != "stream"}, sort_keys=True),
+                           "pre": pre, "post": proj(o),
                            "exc": e, "glob": glob[0], "explicit": True})
         else:
             raise ValueError(k)
